@@ -6,7 +6,7 @@ from tools.framework import Case, Err
 from harness.midi_common import *
 
 ID = "C16"
-LEAN_MODULES = ["Mingus.Props.C16Vlq", "Mingus.Props.C16Smf", "Mingus.Props.C16Spec", "Mingus.Props.C16Track",
+LEAN_MODULES = ["Mingus.Props.C16Vlq", "Mingus.Props.C16Smf", "Mingus.Props.C16Spec", "Mingus.Props.C16Track", "Mingus.Props.C16Tempo",
                 "Mingus.Props.C16", "Mingus.Props.C16Meta", "Mingus.Tie.C16"]
 RULE = ("variable-length encoder: 0..20000 (quick) / 0..600000 (thorough) densely, every 128^k +-3 up to 2^35, 2^28-1, seeded "
         "random values below 2^28; systematic files: every one of the 30 keys, 15 meters, every value in the integral and the "
@@ -19,7 +19,7 @@ RULE = ("variable-length encoder: 0..20000 (quick) / 0..600000 (thorough) densel
 EXHAUSTIVE = {"quick": False, "thorough": False}
 ASSUMPTIONS = ["the float logarithms in int_to_varbyte and time_signature_event are modelled by exact integer logarithms; the "
                "correspondence compares them on every boundary (128^k +-3, meters 1..128) and a dense range",
-               "NoteContainers that carry a bpm attribute (mid-bar tempo change) are not in the Lean model; they are generated and judged by the oracle only (a tempo event of 60000000 div bpm at the tick where the container starts)",
+               "the round trip of mid-bar tempo changes through the reader is not part of C17 (the reader keeps the last tempo only)",
                "the bytes are read back from the file written by write_*; the file system is trusted to return what was written"]
 TRUSTED = ["harness/midi_common.py smf_parse: the independent SMF reader (about 90 lines, written from the SMF 1.0 text)"]
 
@@ -90,14 +90,14 @@ def cases(tier, rng):
         out.append(W("composition", [["r", 3, [["C", 3, 4, [[4, None], [4, A], [4, None]]]]], ["q", None, []]], rep=rep, tag="write:repeat"))
     for bpm in (4, 5, 59, 60, 61, 119, 120, 121, 240, 999, 1000, 60000000, 60000001):
         out.append(W("note", ["C", 4, 1, 64], bpm=bpm, tag="write:tempo"))
-    # containers that carry a bpm attribute: a tempo event where the container starts (not in the Lean model: oracle only)
+    # containers that carry a bpm attribute: a tempo event where the container starts
     for tb in (60, 90, 200, 33, 1000):
         for pos in range(3):
             ents = [[4, A], [8, None], [8, B], [2, A]]
             ents[[0, 2, 3][pos]] = ents[[0, 2, 3][pos]] + [tb]
-            out.append(W("bar", ["C", 4, 4, ents], rep=pos % 2, tag="write:mid-bar-tempo", model=False))
-            out.append(W("track", ["tempo", None, [["C", 4, 4, [[1, None]]], ["G", 4, 4, ents]]], bpm=77, tag="write:mid-bar-tempo", model=False))
-    out.append(W("bar", ["C", 4, 4, [[4, A, 60], [4, None, 90], [4, [], 33], [4, B, 200]]], tag="write:mid-bar-tempo", model=False))
+            out.append(W("bar", ["C", 4, 4, ents], rep=pos % 2, tag="write:mid-bar-tempo"))
+            out.append(W("track", ["tempo", None, [["C", 4, 4, [[1, None]]], ["G", 4, 4, ents]]], bpm=77, tag="write:mid-bar-tempo"))
+    out.append(W("bar", ["C", 4, 4, [[4, A, 60], [4, None, 90], [4, [], 33], [4, B, 200]]], tag="write:mid-bar-tempo"))
     out.append(W("composition", [], tag="write:empty"))
     out.append(W("composition", [["only", None, []]], tag="write:empty"))
     for lo in (["Cb", 0, 0, 64], ["Dbb", 0, 0, 64], ["C", 0, 0, 64], ["G", 9, 0, 64], ["F##", 9, 0, 64]):
